@@ -23,7 +23,7 @@ pub fn prop() -> Prop {
 }
 
 /// (JSON text or None for absent)
-const VALS: [Option<&str>; 32] = [
+const VALS: [Option<&str>; 34] = [
     None,
     Some("null"),
     Some("true"),
@@ -56,6 +56,8 @@ const VALS: [Option<&str>; 32] = [
     Some("1e300"),
     Some("[\"\u{e9}\",\"\u{1f603}\"]"),
     Some("{\"k\u{1f603}\":\"\u{20ac}\"}"),
+    Some("\"p;q;\""),
+    Some("[\";\",{\"k;\":1}]"),
 ];
 
 const NAMES: [[&str; 3]; 4] = [["a", "b", "c"], ["first name", "x,y", "q\"r"], ["é", "ñame", "日本"], ["v", "v", "w"]];
@@ -150,7 +152,7 @@ fn field_ok(f: &csv::Field, v: &Option<V>) -> Result<(), String> {
 }
 
 fn nontrivial_val(i: usize) -> bool {
-    matches!(i, 0 | 10 | 13..=18 | 21..=23 | 25..=28 | 30 | 31)
+    matches!(i, 0 | 10 | 13..=18 | 21..=23 | 25..=28 | 30..=33)
 }
 
 fn csv_part(ctx: &mut Ctx) {
@@ -370,7 +372,7 @@ impl TextOpts {
 }
 
 /// values whose text spelling is beyond doubt (no 1e300, no control characters inside nested strings)
-const TEXT_VALS: [usize; 26] = [0, 1, 2, 3, 4, 5, 6, 7, 8, 9, 10, 11, 12, 13, 14, 15, 16, 18, 19, 21, 24, 25, 26, 27, 30, 31];
+const TEXT_VALS: [usize; 28] = [0, 1, 2, 3, 4, 5, 6, 7, 8, 9, 10, 11, 12, 13, 14, 15, 16, 18, 19, 21, 24, 25, 26, 27, 30, 31, 32, 33];
 
 fn text_part(ctx: &mut Ctx) {
     let kmax = ctx.tier.pick(3usize, 9);
